@@ -28,8 +28,9 @@ TRUSTED = [
     "proved equal to the hand-written copy; the extractor itself is trusted",
     "only parameters exposed to the caller are domain parameters (GaussianNB / LogisticRegression take the label set "
     "from y without a `classes` parameter: not in the table); an estimator stores the derived value in self.<param>, "
-    "so a SECOND fit of the SAME instance is silent — the matrix uses a fresh instance per call and reports this as a "
-    "note only",
+    "so a SECOND fit of the SAME instance is silent and KEEPS the value derived (with a warning) by the first — the matrix "
+    "uses a fresh instance per call; the two-call sequences check that a later call on the same instance either warns or "
+    "ends with domain parameters and fitted state that do not depend on the range of its own batch",
 ]
 UNPROVED = [
     "that the running code raises the warning on every call of the matrix is observed (exhaustively over the "
@@ -40,7 +41,11 @@ RULE = ("exhaustive configuration matrix: 15 tools, 8 estimators, covariance_eig
         "parameters (histogramdd/histogram2d: range None / list / tuple / object array x every subset of missing "
         "per-dimension entries x count/edges bins patterns, 2-D and 3-D) x call variants (axis, several quantiles, "
         "fit/partial_fit/fit_transform) x two consecutive calls in one fresh process under the library's own filter; "
-        "datasets from the seed; a cell is non-trivial when some needed parameter is omitted; distinct by cell id")
+        "datasets from the seed; a cell is non-trivial when some needed parameter is omitted; distinct by cell id; n_jobs >= 2 "
+        "(joblib process back-end armed with the harness's worker shims) for every estimator that takes n_jobs, multi-class "
+        "data; two-call sequences (fit/partial_fit/fit_transform/fit_predict pairs, warm start, growing forests) on ONE "
+        "estimator built without each non-empty subset of its domain parameters, the second batch leaving the range of the "
+        "first, run on two second batches that differ only in how far the extreme record (or which unseen label) lies outside")
 
 VERIF = leanio.VERIF
 PARAM_SIG = {"bounds": "bounds", "range": "range", "data_norm": "data_norm", "norm": "norm", "classes": "classes",
@@ -197,6 +202,16 @@ def build_matrix():
         "DecisionTreeClassifier": [{"ctor": {"max_depth": "np.int64:2"}}, {"fit": {"check_input": False}},
                                    {"fit": {"check_input": "np.bool_:0"}}, {"fit": {"sample_weight": None, "check_input": True}}],
     }
+    # n_jobs >= 2: every estimator that accepts n_jobs, multi-class data (more than one joblib task).  LogisticRegression
+    # asks joblib for its PROCESS back-end: a warning raised inside a task never reaches the caller's process, so the
+    # fallback + warning must happen before the parallel section (worker processes are armed by _arm_workers)
+    model_variants["LogisticRegression"] += [{"ctor": {"n_jobs": 2}, "multiclass": True},
+                                             {"ctor": {"n_jobs": "np.int64:2"}, "multiclass": True},
+                                             {"ctor": {"n_jobs": 3, "warm_start": True}, "multiclass": True},
+                                             {"ctor": {"n_jobs": 2, "fit_intercept": False}, "multiclass": True},
+                                             {"ctor": {"n_jobs": -1}, "multiclass": True}]
+    model_variants["RandomForestClassifier"] += [{"ctor": {"n_jobs": 2, "n_estimators": 4}},
+                                                 {"ctor": {"n_jobs": -1, "n_estimators": 3, "warm_start": True}}]
     for m, vs in model_variants.items():
         params = {"LogisticRegression": ["data_norm"], "RandomForestClassifier": ["bounds", "classes"],
                   "DecisionTreeClassifier": ["bounds", "classes"]}.get(m, ["bounds"])
@@ -461,6 +476,185 @@ def _domain_probe(c, X, y, PLW):
     return res
 
 
+# ------------------------------------------------------------------------------------------------ call sequences
+
+def build_sequences():
+    """two-call sequences on ONE estimator object built WITHOUT (some of) its domain parameters: call 1 derives them from
+    batch 1 (and warns: that is the matrix above); call 2 gets a batch that leaves the range of batch 1"""
+    seqs = []
+
+    def add(entry, params, omit, first, second, ctor=None, vary="x", **extra):
+        seqs.append(dict({"entry": entry, "params": params, "omit": omit, "first": first, "second": second,
+                          "ctor": ctor or {}, "vary": vary}, **extra))
+
+    for a, b in (("partial_fit", "partial_fit"), ("partial_fit", "fit"), ("fit", "fit"), ("fit", "partial_fit")):
+        add("GaussianNB", ["bounds"], ["bounds"], a, b)
+    add("GaussianNB", ["bounds"], ["bounds"], "partial_fit", "partial_fit", thirds=True)
+    for a, b in (("fit", "fit"), ("partial_fit", "partial_fit"), ("fit", "partial_fit"), ("partial_fit", "fit"),
+                 ("fit", "fit_transform")):
+        add("StandardScaler", ["bounds"], ["bounds"], a, b)
+    add("StandardScaler", ["bounds"], ["bounds"], "partial_fit", "partial_fit", thirds=True)
+    for b in ("fit", "fit_predict"):
+        add("KMeans", ["bounds"], ["bounds"], "fit", b)
+    for omit in subsets(["bounds_X", "bounds_y"]):
+        if omit:
+            add("LinearRegression", ["bounds_X", "bounds_y"], omit, "fit", "fit")
+            add("LinearRegression", ["bounds_X", "bounds_y"], omit, "fit", "fit", {"fit_intercept": False})
+    for ck in ({}, {"warm_start": True}, {"fit_intercept": False}):
+        add("LogisticRegression", ["data_norm"], ["data_norm"], "fit", "fit", ck)
+    for centered in (False, True):
+        for omit in subsets(["bounds", "data_norm"]):
+            if ("data_norm" in omit) or ("bounds" in omit and not centered):
+                for b in ("fit", "fit_transform"):
+                    add("PCA", ["bounds", "data_norm"], omit, "fit", b, {"centered": centered})
+    for omit in subsets(["bounds", "classes"]):
+        if omit:
+            for vary in (["x"] if "classes" not in omit else ["x", "label"]):
+                add("RandomForestClassifier", ["bounds", "classes"], omit, "fit", "fit", vary=vary)
+                add("RandomForestClassifier", ["bounds", "classes"], omit, "fit", "fit", {"warm_start": True}, vary=vary, grow=2)
+                add("RandomForestClassifier", ["bounds", "classes"], omit, "fit", "fit", {"n_jobs": 2}, vary=vary)
+                add("DecisionTreeClassifier", ["bounds", "classes"], omit, "fit", "fit", vary=vary)
+    for i, q in enumerate(seqs):
+        q["sid"] = i
+    return seqs
+
+
+def seq_key(q):
+    return (f"seq:{q['entry']}|omit={','.join(q['omit'])}|{q['first']}>{q['second']}|{json.dumps(q['ctor'], sort_keys=True)}"
+            f"|vary={q['vary']}" + ("|x3" if q.get("thirds") else "") + (f"|grow={q['grow']}" if q.get("grow") else ""))
+
+
+def seq_signature(q, what):
+    return f"C11:{q['entry']}:{'+'.join(q['omit'])}:{q['first']}>{q['second']}:later-call-{what}-silent"
+
+
+def _seq_data(seed, q):
+    """batch 1 inside [-1,1]^d / sqrt(d); batch 2 = a fresh batch of the same kind whose record 0 is an extreme e far outside
+    the range (and the norm) of batch 1 — variant A: e, variant B: 2e (same direction, so that clipping to a STORED box
+    or norm maps both to bit-identical data); vary = "label": record 0 of batch 2 carries a label unseen in batch 1"""
+    rs = np.random.RandomState((seed + 104729 * q["sid"]) % (2 ** 32))
+    nd = 3 if q["entry"] == "PCA" else 2
+    n = 40 + int(rs.randint(0, 30))
+    X1 = rs.uniform(-1, 1, (n, nd)) / np.sqrt(nd)
+    X2 = rs.uniform(-1, 1, (n, nd)) / np.sqrt(nd)
+    y1 = np.arange(n) % 3
+    y2 = np.arange(n) % 3
+    rs.shuffle(y1)
+    rs.shuffle(y2)
+    e = rs.choice([-1.0, 1.0], nd) * np.round(rs.uniform(3, 8, nd), 3)
+    XA, XB, yA, yB = X2.copy(), X2.copy(), y2.copy(), y2.copy()
+    if q["vary"] == "x":
+        XA[0], XB[0] = e, 2 * e
+    else:
+        yA[0], yB[0] = 7, 9
+    yr1 = np.clip(X1.sum(axis=1), -1, 1)
+    yr2 = np.clip(X2.sum(axis=1), -1, 1)
+    yrA, yrB = yr2.copy(), yr2.copy()
+    if q["vary"] == "x" and q["entry"] == "LinearRegression":
+        yrA[0], yrB[0] = 5.0 * np.sign(e[0]), 10.0 * np.sign(e[0])       # the target leaves its range too
+    return {"X1": X1, "y1": y1, "yr1": yr1, "A": (XA, yA, yrA), "B": (XB, yB, yrB), "extreme": e.tolist()}
+
+
+def _seq_fitted(q, est, grid):
+    """fitted state, canonical: every numeric attribute ending in '_', plus the predictions on a fixed grid"""
+    out = {}
+    # PCA(centered=False) clips (x - mean_) to data_norm: the extreme records e and 2e, identical after clipping to a stored
+    # BOX, are no longer parallel after the shift, so only mean_ (computed inside the stored bounds) is comparable there
+    only_mean = q["entry"] == "PCA" and not q["ctor"].get("centered")
+    for k, v in sorted(vars(est).items()):
+        if not k.endswith("_") or k.startswith("_") or k in ("estimators_", "tree_", "estimator_"):
+            continue
+        if only_mean and k != "mean_":
+            continue
+        try:
+            out[k] = np.asarray(v, dtype=float).tolist()
+        except Exception:  # noqa
+            pass
+    for m in ("predict_proba", "predict", "transform"):
+        if hasattr(est, m) and not only_mean:
+            try:
+                out["@" + m] = np.asarray(getattr(est, m)(grid.copy()), dtype=float).tolist()
+            except Exception as ex:  # noqa
+                out["@" + m] = f"{type(ex).__name__}"
+    return out
+
+
+def _differs(a, b):
+    try:
+        x, y = np.asarray(a, dtype=float), np.asarray(b, dtype=float)
+        if x.shape != y.shape:
+            return True
+        return not bool(np.allclose(x, y, rtol=1e-9, atol=1e-12, equal_nan=True))
+    except Exception:  # noqa
+        return a != b
+
+
+def _run_sequence(q, seed, PLW):
+    import warnings
+    import diffprivlib as d
+    cls = getattr(d.models, q["entry"])
+    D = _seq_data(seed, q)
+    nd = D["X1"].shape[1]
+    b = (-np.ones(nd), np.ones(nd))
+    supplied = {"bounds": b, "bounds_X": b, "bounds_y": (-1.0, 1.0), "data_norm": 1.5 if q["entry"] != "PCA" else 2.5,
+                "classes": [0, 1, 2]}
+    base = {"GaussianNB": {"epsilon": 1.0}, "StandardScaler": {"epsilon": 1.0}, "KMeans": {"n_clusters": 2, "epsilon": 5.0},
+            "LinearRegression": {"epsilon": 2.0}, "LogisticRegression": {"epsilon": 2.0, "max_iter": 20},
+            "PCA": {"n_components": 2, "epsilon": 2.0},
+            "RandomForestClassifier": {"n_estimators": 2, "epsilon": 2.0, "max_depth": 2},
+            "DecisionTreeClassifier": {"epsilon": 2.0, "max_depth": 2}}[q["entry"]]
+    kw = dict(base, **_dkw(q["ctor"]))
+    for p_ in q["params"]:
+        if p_ not in q["omit"]:
+            kw[p_] = supplied[p_]
+    grid = np.array(list(itertools.product([-0.6, 0.0, 0.5], repeat=nd)))
+
+    def one(est, meth, X, y, yr, first):
+        if q["entry"] == "LinearRegression":
+            return getattr(est, meth)(X.copy(), yr)
+        if q["entry"] in ("KMeans", "StandardScaler", "PCA"):
+            return getattr(est, meth)(X.copy())
+        if q["entry"] == "GaussianNB" and meth == "partial_fit" and first:
+            return est.partial_fit(X, y, classes=[0, 1, 2])
+        return getattr(est, meth)(X, y)
+
+    rec = {"sid": q["sid"], "seed": seed, "extreme": D["extreme"], "runs": {}, "err": None}
+    for tag in ("A", "B"):
+        X2, y2, yr2 = D[tag]
+        est = cls(accountant=d.BudgetAccountant(), random_state=0, **kw)
+        run = {"n": [], "err": [None, None]}
+        with warnings.catch_warnings(record=True) as w:       # filters untouched: the library's own `always`
+            cnt = lambda: len([x for x in w if issubclass(x.category, PLW)])  # noqa: E731
+            try:
+                one(est, q["first"], D["X1"], D["y1"], D["yr1"], True)
+            except Exception as ex:  # noqa
+                run["err"][0] = f"{type(ex).__name__}:{str(ex)[:120]}"
+            run["n"].append(cnt())
+            dom1 = _domain_attrs(q, est)
+            if q.get("grow"):
+                est.n_estimators = est.n_estimators + q["grow"]
+            try:
+                one(est, q["second"], X2, y2, yr2, False)
+                if q.get("thirds"):                          # a THIRD call, wider still: the property is per call
+                    one(est, q["second"], X2 * 1.5, y2, yr2, False)
+            except Exception as ex:  # noqa
+                run["err"][1] = f"{type(ex).__name__}:{str(ex)[:120]}"
+            run["n"].append(cnt() - run["n"][0])
+        run["dom1"], run["dom"] = dom1, _domain_attrs(q, est)
+        run["fitted"] = _seq_fitted(q, est, grid) if not run["err"][1] else {}
+        rec["runs"][tag] = run
+    A, B = rec["runs"]["A"], rec["runs"]["B"]
+    rec["n"] = {"A": A["n"], "B": B["n"]}
+    rec["errs"] = {"A": A["err"], "B": B["err"]}
+    rec["dom_differs"] = sorted(k for k in set(A["dom"]) | set(B["dom"]) if _differs(A["dom"].get(k), B["dom"].get(k)))
+    rec["fit_differs"] = sorted(k for k in set(A["fitted"]) | set(B["fitted"]) if _differs(A["fitted"].get(k), B["fitted"].get(k)))
+    rec["dom_changed"] = sorted(k for k in set(A["dom"]) | set(A["dom1"]) if _differs(A["dom"].get(k), A["dom1"].get(k)))
+    rec["values"] = {k: [str(A["dom"].get(k))[:90], str(B["dom"].get(k))[:90]] for k in rec["dom_differs"]}
+    rec["values"].update({k: [str(A["fitted"].get(k))[:90], str(B["fitted"].get(k))[:90]] for k in rec["fit_differs"][:2]})
+    del rec["runs"]
+    return rec
+
+
 def worker_main():
     """runs in a fresh interpreter; stdin: {"cells": [...], "seeds": [...]}; stdout: one JSON line per (cell, seed)"""
     import warnings
@@ -468,7 +662,8 @@ def worker_main():
     from diffprivlib.utils import PrivacyLeakWarning
     req = json.load(sys.stdin)
     flt = [f[0] for f in warnings.filters if f[2] is PrivacyLeakWarning]
-    out = {"filter_actions": flt, "results": []}
+    out = {"filter_actions": flt, "results": [], "seq_results": []}
+    _arm_workers()
     for c in req["cells"]:
         big = c["variant"].get("data") or c["variant"].get("bins") == "bigscalar" or c["variant"].get("wide") or "32768" in str(c["variant"].get("bins_t"))
         for seed in (req["seeds"][:1] if big else req["seeds"]):
@@ -507,6 +702,12 @@ def worker_main():
             if not c["omit"] and not c.get("note_only") and c["entry"] not in BOUNDS_TOOLS + ["count_nonzero", "covariance_eig"]:
                 rec["domain_probe"] = _domain_probe(c, X, y, PrivacyLeakWarning)
             out["results"].append(rec)
+    for q in req.get("seqs", []):
+        for seed in req["seeds"]:
+            try:
+                out["seq_results"].append(_run_sequence(q, seed, PrivacyLeakWarning))
+            except Exception as ex:  # noqa
+                out["seq_results"].append({"sid": q["sid"], "seed": seed, "err": f"{type(ex).__name__}:{str(ex)[:160]}"})
     # note only: second fit on the SAME estimator instance
     try:
         X, y = _dataset(1, {"variant": {}, "entry": "GaussianNB"})
@@ -524,13 +725,27 @@ def worker_main():
     sys.stdout.flush()
 
 
-def run_worker(cells, seeds, timeout=1500):
+def _arm_workers():
+    """joblib's process back-end (loky) starts fresh interpreters that inherit os.environ: make them apply the third-party
+    API shims (harness/worker_site/sitecustomize.py, the mechanism of C14/C15) and import the same /repo tree BEFORE they
+    unpickle library functions.  Called inside the matrix interpreter only, so that interpreter itself starts plainly."""
+    from .. import shim
+    site = os.path.join(VERIF, "harness", "worker_site")
+    pp = os.environ.get("PYTHONPATH", "")
+    if site not in pp.split(os.pathsep):
+        os.environ["PYTHONPATH"] = site + (os.pathsep + pp if pp else "")
+    os.environ["VERIF_WORKER_SHIM"] = "1"
+    os.environ["VERIF_REPO"] = shim.REPO
+
+
+def run_worker(cells, seeds, timeout=1500, seqs=()):
     env = dict(os.environ)
     env["VERIF_SHIM_PRISTINE_WARNINGS"] = "1"
     env.pop("PYTHONWARNINGS", None)
     env["PYTHONDONTWRITEBYTECODE"] = "1"
     p = subprocess.run([sys.executable, "-c", "from harness.props.c11 import worker_main; worker_main()"],
-                       cwd=VERIF, env=env, input=json.dumps({"cells": cells, "seeds": seeds}), capture_output=True,
+                       cwd=VERIF, env=env, input=json.dumps({"cells": cells, "seeds": seeds, "seqs": list(seqs)}),
+                       capture_output=True,
                        text=True, timeout=timeout)
     if p.returncode != 0:
         raise RuntimeError(f"C11 worker failed rc={p.returncode}: {p.stderr[-2000:]}")
@@ -612,15 +827,62 @@ def judge(ctx, c, rec, model_out):
     ctx.trace_ok()
 
 
+def seq_fails(rec):
+    """(what, attrs) when the later call's result depends on the range of ITS batch and it recorded no PrivacyLeakWarning"""
+    if rec.get("err") or any(rec["errs"][t][i] for t in "AB" for i in (0, 1)):
+        return None
+    silent = min(rec["n"]["A"][1], rec["n"]["B"][1]) == 0
+    if silent and rec["dom_differs"]:
+        return "rederives-" + rec["dom_differs"][0], rec["dom_differs"]
+    if silent and rec["fit_differs"]:
+        return "fitted-state-depends-on-range", rec["fit_differs"]
+    return None
+
+
+def judge_seq(ctx, q, rec):
+    key = seq_key(q)
+    if rec.get("err") or any(rec["errs"][t][0] for t in "AB"):
+        ctx.disagree("sequence.call", {"seq": key, "seed": rec["seed"]}, "first call returns", rec.get("err") or rec["errs"],
+                     note="sequence raised")
+        return
+    if any(rec["errs"][t][1] for t in "AB"):
+        # the later call refused its batch: nothing released
+        ctx.case(key)
+        ctx.count("sequence_refusals")
+        ctx.trace_ok()
+        return
+    ctx.case(key)
+    bad = seq_fails(rec)
+    if bad:
+        what, attrs = bad
+        ctx.violation(seq_signature(q, what),
+                      f"{q['entry']}({json.dumps(q['ctor'])}) built without {q['omit']}: {q['first']}(batch 1) recorded "
+                      f"{rec['n']['A'][0]} PrivacyLeakWarning(s); then {q['second']}(batch 2) on the SAME object, batch 2 having "
+                      f"one record far outside batch 1 ({'x[0] = ' + str(rec['extreme']) + ' vs twice that' if q['vary'] == 'x' else 'label 7 vs label 9'}): "
+                      f"{attrs} after the call differ between the two batches ({rec['values']}) — taken from the data of "
+                      f"the later call — and it recorded {rec['n']['A'][1]}/{rec['n']['B'][1]} PrivacyLeakWarnings",
+                      {"seq": q, "seed": rec["seed"], "recorded_privacy_leak_warnings": rec["n"], "differs": attrs,
+                       "values": rec["values"]})
+        return
+    if min(rec["n"]["A"][1], rec["n"]["B"][1]) > 0:
+        ctx.count("sequence_later_call_warned")
+    ctx.trace_ok()
+
+
 def check(ctx):
     cells = build_matrix()
+    seqs = build_sequences()
     r = ctx.fork("datasets")
     seeds = [r.randint(1, 2 ** 30) for _ in range(ctx.budget(1, 4) if not ctx.searching else 3)]
     try:
-        res = run_worker(cells, seeds)
+        res = run_worker(cells, seeds, seqs=seqs)
     except Exception as e:  # noqa - the fresh interpreter died (library import / unexpected exception): per-cell retry
         ctx.note(f"matrix worker failed as a whole ({type(e).__name__}: {str(e)[-300:]}); retrying cell by cell")
-        res = {"filter_actions": [], "results": [], "same_instance_refit": None}
+        res = {"filter_actions": [], "results": [], "seq_results": [], "same_instance_refit": None}
+        try:
+            res["seq_results"] = run_worker([], seeds[:1], timeout=600, seqs=seqs)["seq_results"]
+        except Exception as e1:  # noqa
+            ctx.disagree("matrix.worker", {"seqs": len(seqs)}, "sequences run", f"worker died: {type(e1).__name__}: {str(e1)[-200:]}")
         for c in cells:
             try:
                 r1 = run_worker([c], seeds[:1], timeout=300)
@@ -639,6 +901,11 @@ def check(ctx):
     for rec in res["results"]:
         c, mo = by_id[rec["id"]]
         judge(ctx, c, rec, mo)
+    ctx.count("sequences", len(seqs))
+    ctx.count("sequence_calls_observed", 4 * len(res.get("seq_results", [])))
+    sq = {q["sid"]: q for q in seqs}
+    for rec in res.get("seq_results", []):
+        judge_seq(ctx, sq[rec["sid"]], rec)
     # the filter the library installed itself
     acts = res.get("filter_actions", [])
     ctx.note(f"PrivacyLeakWarning filter entries found in the fresh interpreter: {acts}")
@@ -661,6 +928,9 @@ def check(ctx):
 
 def replay(ctx, data):
     d = data["data"]
+    if "seq" in d:
+        rec = run_worker([], [int(d["seed"])], seqs=[d["seq"]])["seq_results"][0]
+        return seq_fails(rec) is not None
     c = d["cell"]
     res = run_worker([c], [int(d["seed"])])
     rec = res["results"][0]
